@@ -7,12 +7,14 @@ BASE_CMD = "cd /repo && /venv/bin/python -m pytest -ra -q -p no:cacheprovider --
 CHECKS = {}
 NOT_YET = {}
 # properties whose check is finished and reviewed (others stay under not_applicable until then)
-ENABLED = ["C03", "C04", "C07", "C08", "C15", "C17"]
+ENABLED = ["C03", "C04", "C05", "C07", "C08", "C15", "C17"]
 
 def load():
     import importlib, pkgutil
     import harness.props as P
     for m in pkgutil.iter_modules(P.__path__):
+        if m.name.upper() not in ENABLED:
+            continue
         mod = importlib.import_module(f"harness.props.{m.name}")
         meta = getattr(mod, "MANIFEST", None)
         if meta and m.name.upper() in ENABLED:
